@@ -13,7 +13,7 @@ from . import common as C
 
 PID = "C11"
 SHARDS = {"quick": 4, "thorough": 16}
-N = {"quick": 3000, "thorough": 100000}
+N = {"quick": 3400, "thorough": 115000}
 DOC_EXAMPLES = 4
 
 
@@ -23,7 +23,11 @@ def new_run():
                "then hit by value / null / duplicate / dtype / column mutations, optional exact "
                "coercion), validated lazily by the real code; rows carry a hidden identity (unique "
                "index label: shuffled ints, strings or MultiIndex tuples; row content + order for "
-               "polars); the surviving identities are compared with the reference model's rows "
+               "polars; RangeIndex slices / 1-based / stepped ranges); workloads also hold Index "
+               "checks failing below a column error, aggregate checks (one boolean) and checks "
+               "that raise (not attributable to rows: must be raised) on columns / index levels / "
+               "the frame / a SeriesSchema, and stand-alone (regex) Column components matching 2-3 "
+               "columns; the surviving identities are compared with the reference model's rows "
                "satisfying every row-level constraint; non-trivial = at least one row must be dropped "
                "or a non-row error must be raised; distinct = canonical hash",
                ["reference model pvm/model.py; index labels unique and non-null (documented limit)",
@@ -86,8 +90,24 @@ def gen(rng, neutral=False):
             table["index"] = {"levels": [
                 {"name": "k0", "phys": "int64", "values": [rng.choice([3019, 7, 8]) for _ in range(n2)]},
                 {"name": "k1", "phys": "float64", "values": [x + 0.5 for x in rng.sample(range(50), n2)]}]}
-    typed = copy.deepcopy(table)
     opts = []
+    if spec["kind"] == "frame" and not neutral and rng.random() < 0.15 \
+            and P.force_index_combo(rng, spec, table):
+        # an Index check failing on a row below a row with a column error
+        muts.append(("index_combo",))
+        opts.append("combo:index_error_below_column_error")
+    elif spec["kind"] == "frame" and not neutral and rng.random() < 0.12 \
+            and P.force_range_index(rng, spec, table):
+        # an Index check failing on a RangeIndex that is not RangeIndex(0, n, 1)
+        muts.append(("range_index",))
+        opts.append("range_index:not_zero_based_or_stepped")
+    if not neutral and rng.random() < 0.2:
+        # a violation that cannot be attributed to rows: aggregate check / check that raises
+        tag = P.add_whole_column_check(rng, spec, table)
+        if tag:
+            muts.append(("whole_column_check", tag))
+            opts.append("whole_column_check:" + tag.split(":")[1])
+    typed = copy.deepcopy(table)
     if rng.random() < 0.35 and spec["kind"] == "frame":
         # exact coercion on well-typed columns only
         for fs in spec["columns"]:
@@ -101,6 +121,8 @@ def gen(rng, neutral=False):
                     fs["coerce"] = True
                     P._retype_for_coercion(rng, fs, col)
                     opts.append("coerce")
+    if G.relabel(rng, spec, table, typed, p=0.25, polars=neutral):
+        opts.append("falsy_labels")
     return spec, table, typed, muts, opts
 
 
@@ -116,6 +138,20 @@ def rows_of(table):
 
 
 def classify(spec, kind, detail):
+    return None
+
+
+def classify_exc(table, out):
+    """Mechanism of an internal exception under drop_invalid_rows."""
+    lev = (table.get("index") or {}).get("levels") or []
+    if len(lev) == 1 and lev[0]["name"] is not None and not isinstance(lev[0]["name"], str) \
+            and lev[0]["name"] == 0 \
+            and H.exc_sig(out.exc) == "ValueError@backends/pandas/error_formatters.py:reshape_failure_cases" \
+            and "cannot insert" in str(out.exc):
+        # wide failure cases (joint uniqueness / dataframe-level check) are
+        # unstacked into an unnamed Series and reset_index() then collides with
+        # an index level that is NAMED 0 (0.0, False)
+        return "reshape_failure_cases-index-named-0-collides-on-reset_index"
     return None
 
 
@@ -156,13 +192,16 @@ def pandas_case(run, rng):
     if out.kind == "exc":
         run.violation("internal-exception-instead-of-drop-or-SchemaErrors",
                       C.brief(spec, table, {"exc": repr(out.exc)[:300], "sig": H.exc_sig(out.exc)}),
-                      None)
+                      classify_exc(table, out))
         return
     if spec["kind"] == "series" and any(e.where == "index" for e in v.errors):
         run.count("undecided:series_schema_with_failing_index_schema")
         return
     if non_row:
         run.count("non_row_error_expected_raise")
+        for e in non_row:
+            if e.reason == "CHECK_ERROR" or (e.reason == "DATAFRAME_CHECK" and e.scalar is False):
+                run.count(f"non_row_error_expected_raise:whole_column_check:{spec['kind']}:{e.where}")
         if out.accepted:
             run.violation("non-row-violation-swallowed",
                           C.brief(spec, table, {"model_non_row": [(e.reason, e.column) for e in non_row]}),
@@ -182,6 +221,9 @@ def pandas_case(run, rng):
     run.count("rows_compared")
     if v.bad_rows:
         run.count("rows_compared_with_drops")
+    for o in opts:
+        if o != "coerce":
+            run.count(f"rows_compared:{o}")
     labels = list(idx)
     pos = {}
     for i, l in enumerate(labels):
@@ -271,6 +313,154 @@ def polars_case(run, rng):
                       None)
 
 
+REGEX_LABELS = {"r_.*": ["r_a", "r_bb", "r_c"], "r\\d": ["r1", "r2", "r3"], "r_a|r_b": ["r_a", "r_b"]}
+
+
+def column_case(run, rng):
+    """Stand-alone ``Column(..., drop_invalid_rows=True).validate(df, lazy=True)``,
+    most of the time a regex Column whose pattern matches two or three columns:
+    a row survives iff it violates no row-level constraint of the component in
+    ANY matched column; a violation that is not attributable to rows (wrong
+    dtype, aggregate check, check that raises) must be raised."""
+    import pandera as pa
+    regex = rng.random() < 0.7
+    dtype = rng.choice(G.DTYPES)
+    name = rng.choice(sorted(REGEX_LABELS)) if regex else rng.choice(G.NAMES)
+    fs = G.gen_field(rng, name, dtype)
+    fs["regex"] = regex
+    n = rng.choice([3, 4, 5, 6])
+    labels = REGEX_LABELS[name][: rng.randint(2, 3)] if regex else [name]
+    if regex:
+        # the matched columns are validated one after the other, each on the rows
+        # the previous one left: whether a value is still a duplicate once its
+        # twin's row was dropped because of ANOTHER column is not documented ->
+        # uniqueness is only generated for a single matched column
+        fs["unique"] = False
+    cols = [{"name": l, "phys": G.PHYS_OF[dtype], "values": G.gen_values(rng, fs, n)} for l in labels]
+    if rng.random() < 0.5:
+        cols.insert(rng.randint(0, len(cols)), {"name": "zz", "phys": "int64",
+                                                "values": [rng.randint(0, 3) for _ in range(n)]})
+    how = rng.random()
+    index = None
+    if how < 0.4:
+        index = {"levels": [{"name": None, "phys": "int64", "values": rng.sample(range(100, 160), n)}]}
+    elif how < 0.6:
+        index = {"levels": [{"name": "k", "phys": "object",
+                             "values": rng.sample(["r%d" % i for i in range(20)], n)}]}
+    elif how < 0.75:
+        start, step = rng.choice([(1, 1), (3, 1), (0, 2), (5, -1)])
+        index = {"levels": [{"name": None, "phys": "range", "start": start, "step": step,
+                             "values": [start + i * step for i in range(n)]}]}
+    table = {"columns": cols, "index": index}
+    spec = {"kind": "column", "field": fs, "drop_invalid_rows": True}
+    matched = [c for c in cols if c["name"] in labels]
+    muts = []
+    for _ in range(rng.choice([1, 2, 2, 3])):
+        # bias towards a matched column that is not the last one
+        c = rng.choice(matched[:-1] or matched) if rng.random() < 0.7 else rng.choice(matched)
+        op = rng.choice(["check", "check", "null", "dup", "dtype"])
+        if op == "check" and fs["checks"] and G.violating(fs):
+            c["values"][rng.randrange(n)] = rng.choice(G.violating(fs))
+        elif op == "null" and c["phys"] in ("float64", "object", "datetime"):
+            c["values"][rng.randrange(n)] = None
+        elif op == "dup":
+            i, j = rng.sample(range(n), 2)
+            c["values"][j] = c["values"][i]
+        elif op == "dtype" and rng.random() < 0.3 and c["phys"] == G.PHYS_OF[dtype]:
+            vals = G.convert_phys(c["values"], dtype, rng.choice(G.WRONG_PHYS[dtype]), rng)
+            ph = None
+            if vals is not None:
+                for ph in G.WRONG_PHYS[dtype]:
+                    try:
+                        B._pd_array(ph, vals)
+                        break
+                    except Exception:
+                        ph = None
+            if ph:
+                c["values"], c["phys"] = vals, ph
+            else:
+                continue
+        else:
+            continue
+        muts.append((op, c["name"]))
+    if rng.random() < 0.25:
+        if rng.random() < 0.3:
+            fs["checks"].append({"kind": "custom_raise", "args": {}, "ignore_na": True})
+        else:
+            cnt = [sum(1 for v in c["values"] if v is not None) for c in matched]
+            k = max(0, max(cnt) - 1) if rng.random() < 0.6 else max(cnt) + 1
+            fs["checks"].append({"kind": "custom_agg", "args": {"fn": "len_le", "value": k},
+                                 "ignore_na": True})
+        muts.append(("whole_column_check",))
+    v = M.Verdict(True)
+    for c in matched:
+        M.field_errors(fs, c["phys"], c["values"], "column", c["name"], v.errors, v)
+    M._finish(v)
+    try:
+        data = B.pandas_table({"kind": "frame"}, table)
+        comp = pa.Column(B.pd_dtype(dtype), name=name, regex=regex, drop_invalid_rows=True,
+                         **B._field_kwargs(pa, fs))
+    except Exception as e:
+        run.count("build_error_column:" + type(e).__name__)
+        return
+    out = H.run_validate(comp, data, lazy=True)
+    non_row = [e for e in v.errors if e.cells is None]
+    tag = "column:regex" if regex else "column:plain"
+    agg_failed = [e.column for e in non_row if e.reason == "DATAFRAME_CHECK" and e.scalar is False]
+    if len(matched) > 1 and agg_failed and matched[0]["name"] not in agg_failed \
+            and all(e.reason == "DATAFRAME_CHECK" and e.scalar is False for e in non_row):
+        # an aggregate check that fails on the input rows of a LATER matched
+        # column only: that column is checked on the rows the earlier columns
+        # left, where the aggregate may hold -> not documented, not judged
+        run.count("undecided:aggregate_check_of_later_matched_column_after_drops")
+        return
+    run.case(canon_hash(["column", spec, table]), v.accept is False,
+             sample={"backend": "pandas", "stand_alone_column": True, "spec": spec, "table": table,
+                     "mutations": muts, "model_bad_rows": sorted(v.bad_rows),
+                     "model_non_row_errors": [e.reason for e in non_row], "impl": out.kind})
+    run.count(f"{tag}:{out.kind}")
+    if v.accept is None or not v.rows_known:
+        run.count("undecided:model_not_exact")
+        return
+    if out.kind == "exc":
+        run.violation("internal-exception-instead-of-drop-or-SchemaErrors",
+                      C.brief(spec, table, {"exc": repr(out.exc)[:300], "sig": H.exc_sig(out.exc)}), None)
+        return
+    if non_row:
+        run.count(f"{tag}:non_row_error_expected_raise")
+        if out.accepted:
+            run.violation("non-row-violation-swallowed",
+                          C.brief(spec, table, {"stand_alone_column": True,
+                                                "model_non_row": [(e.reason, e.column) for e in non_row]}),
+                          None)
+        return
+    if not out.accepted:
+        run.violation("row-level-violations-raised-instead-of-dropped",
+                      C.brief(spec, table, {"stand_alone_column": True, "impl": out.kind,
+                                            "reasons": out.reasons(),
+                                            "model": [(e.reason, e.column, e.check) for e in v.errors]}), None)
+        return
+    run.count(f"{tag}:rows_compared")
+    dirty = {e.column for e in v.errors}
+    if regex and len(dirty - {matched[-1]["name"]}) >= 1:
+        run.count("column:regex:rows_compared:violation_in_a_matched_column_that_is_not_the_last")
+    pos = {l: i for i, l in enumerate(data.index)}
+    try:
+        survived = [pos[l] for l in out.result.index]
+    except KeyError:
+        run.violation("result-has-unknown-row-labels",
+                      C.brief(spec, table, {"labels": repr(list(out.result.index))[:200]}), None)
+        return
+    exp = [i for i in range(n) if i not in v.bad_rows]
+    if survived != exp:
+        run.violation("surviving-rows-differ",
+                      C.brief(spec, table, {"stand_alone_column": True, "expected_positions": exp,
+                                            "survived_positions": survived,
+                                            "model_errors": [(e.reason, e.column, e.check,
+                                                              [i for i, _ in e.cells]) for e in v.errors]}),
+                      None)
+
+
 def doc_examples(run):
     """The four examples of docs/source/drop_invalid_rows.md, executed verbatim
     in spirit (the first three are written without coerce in the docs and then
@@ -310,14 +500,28 @@ def run(run, ctx):
         doc_examples(run)
     for i in ctx.cases(N[ctx.tier]):
         rng = ctx.rng(PID, i)
-        if i % 3 == 2:
+        if i % 8 == 5:
+            column_case(run, rng)
+        elif i % 3 == 2:
             polars_case(run, rng)
         else:
             pandas_case(run, rng)
+        C.report_context_leaks(run, {"case": i})
+    C.finish_context_monitor(run)
 
 
 def finalize(run, ctx):
     for name, m in [("rows_compared", 200), ("rows_compared_with_drops", 100),
                     ("values_compared", 150), ("non_row_error_expected_raise", 50),
-                    ("polars:rows_compared", 60), ("doc_example_checked", 7)]:
+                    ("polars:rows_compared", 60), ("doc_example_checked", 7),
+                    ("rows_compared:combo:index_error_below_column_error", 18),
+                    ("rows_compared:falsy_labels", 45),
+                    ("rows_compared:range_index:not_zero_based_or_stepped", 12),
+                    ("column:regex:rows_compared", 50), ("column:plain:rows_compared", 18),
+                    ("column:regex:rows_compared:violation_in_a_matched_column_that_is_not_the_last", 25),
+                    ("column:regex:non_row_error_expected_raise", 8),
+                    ("non_row_error_expected_raise:whole_column_check:frame:column", 18),
+                    ("non_row_error_expected_raise:whole_column_check:frame:frame", 9),
+                    ("non_row_error_expected_raise:whole_column_check:series:column", 4),
+                    ("config_monitor:validate_calls_bracketed", 700)]:
         run.floors[name] = m
